@@ -120,6 +120,7 @@ pub fn build_engine(p: &Program) -> Result<Tera, String> {
     let mut t = Tera::default();
     t.register_filter("twice", |s: &str, _: Kwargs, _: &State| format!("{s}{s}"));
     t.register_function("answer", |_: Kwargs, st: &State| -> tera::TeraResult<i64> { Ok(st.get::<i64>("n1")?.unwrap_or(0) + 42) });
+    t.register_filter("json_encode", tera_contrib::json::json_encode);
     t.global_context().insert("g", "G&<");
     t.add_raw_templates(p.templates.clone()).map_err(|e| e.to_string())?;
     Ok(t)
@@ -142,6 +143,13 @@ fn jobs_of(p: &Program, rng: &mut Rng) -> Vec<Job> {
         jobs.push(Job::Component(c.clone(), if rng.bool() { Some("body <b> & text".to_string()) } else { None }, rng.bool()));
     }
     jobs.push(Job::OneOff("{{ s1 }}{% for x in xs %}{{ x }},{% endfor %}{{ g }}{{ answer() }}{{ s2 | twice }}".to_string(), rng.bool()));
+    // everything whose output depends on the order in which a map is walked: the dump variable, maps built while
+    // rendering, group_by results, keys/values/pairs, comprehensions and serialisation of such maps
+    jobs.push(Job::OneOff(
+        "{% for k, v in __tera_context %}{{ k }},{% endfor %}|{% set rm = {\"a\": n1, \"b\": s1, \"c\": n2, \"d\": f1, \"e\": b1, \"f\": xs} %}{% for k, v in rm %}{{ k }}={{ v }};{% endfor %}|{{ rm | keys }}|{{ rm | values }}|{{ rm | pairs }}|{% for g, it in items | group_by(attribute=\"name\") %}{{ g }}:{{ it | length }},{% endfor %}|{{ [k for k, v in rm] }}|{{ rm | json_encode }}|{% for k, v in mm.a %}{{ k }},{% endfor %}|{{ items | group_by(attribute=\"id\") | keys }}"
+            .to_string(),
+        rng.bool(),
+    ));
     jobs
 }
 
